@@ -409,7 +409,7 @@ impl<'a> G<'a> {
         let d = depth - 1;
         match self.r.below(22) {
             0 => format!("name {} {}", hx(&path(self.r)), self.data(d.min(2))),
-            1 => format!("scope {} {}", hx(&path(self.r)), self.body(d, 3)),
+            1 => format!("{} {} {}", if self.r.coin() { "scope" } else { "scoperaw" }, hx(&path(self.r)), self.body(d, 3)),
             2 => format!("device {} {}", hx(&path(self.r)), self.body(d, 3)),
             3 => format!("method {} {} {} {}", self.r.below(8), self.r.below(2), hx(&path(self.r)), self.body(d, 3)),
             4 => { let b = self.body(d, 3); format!("if {} {} {}", 1 + b.split(' ').next().unwrap().parse::<u64>().unwrap(), self.expr(d), b.splitn(2, ' ').nth(1).unwrap_or("")).trim_end().to_string() }
@@ -487,7 +487,11 @@ pub fn gen_aml(r: &mut Rng, tier: &str, emit: &mut dyn FnMut(String)) {
     for &k in &sizes {
         let pad = hex(&vec![0xA5u8; k]);
         for head in ["scope 41424344 1 buf", "device 41424344 1 buf", "method 2 1 41424344 1 buf", "if 2 one buf", "else 1 buf", "while 2 one buf",
-                     "powerres 1 2 41424344 1 buf", "pkg 1 buf", "pkgb 1 buf", "varpkg buf", "bufterm buf", "buf"] {
+                     "powerres 1 2 41424344 1 buf", "pkg 1 buf", "pkgb 1 buf", "varpkg buf", "bufterm buf", "buf",
+                     // Scope::raw, and multi-segment names (DualNamePrefix, MultiNamePrefix, rooted) at every boundary size
+                     "scoperaw 41424344 1 buf", "scoperaw 414243442e45464748 1 buf", "scoperaw 5c414243442e454647482e494a4b4c 1 buf",
+                     "scope 414243442e454647482e494a4b4c2e4d4e4f50 1 buf", "device 5c414243442e454647482e494a4b4c 1 buf",
+                     "method 2 1 414243442e454647482e494a4b4c 1 buf"] {
             emit(format!("- {} {}", head, pad));
         }
         emit(format!("- rt 1 reg 0 8 0 1 {}", k));
